@@ -9,17 +9,36 @@ use tlsh::length::DataLengthProcessingMode;
 use tlsh::verif::GeneratorStateAccess;
 use tlsh::{FuzzyHashType, GeneratorOptions, GeneratorType};
 
+thread_local! {
+    /// varies the order in which the option setters are called (the value of an options object must not
+    /// depend on it)
+    static OPT_ORDER: std::cell::Cell<u32> = std::cell::Cell::new(0);
+}
+
+/// The options with these bits, built by calling the five setters in an order that changes from call to
+/// call; a setter whose argument is the default is sometimes skipped, sometimes preceded by the opposite
+/// value.  0: conservative, 1: pure integer, 2: small, 3: half, 4: quarter.
 pub fn options_from_bits(bits: u32) -> GeneratorOptions {
+    let k = OPT_ORDER.with(|c| { let v = c.get(); c.set(v.wrapping_add(1)); v });
+    let mut order = [0usize, 1, 2, 3, 4];
+    // k-th permutation (Lehmer code)
+    let mut code = k % 120;
+    for i in 0..5 { let j = i + (code % (5 - i as u32)) as usize; code /= 5 - i as u32; order.swap(i, j); }
     let mut o = GeneratorOptions::new();
-    o.length_processing_mode(if bits & 1 != 0 {
-        DataLengthProcessingMode::Conservative
-    } else {
-        DataLengthProcessingMode::Optimistic
-    });
-    o.pure_integer_qratio_computation(bits & 2 != 0);
-    o.allow_small_size_files(bits & 4 != 0);
-    o.allow_statistically_weak_buckets_half(bits & 8 != 0);
-    o.allow_statistically_weak_buckets_quarter(bits & 16 != 0);
+    for (n, &which) in order.iter().enumerate() {
+        let on = bits & (1 << which) != 0;
+        let style = (k / 120 + n as u32 + which as u32) % 3;   // 0: set, 1: skip if default, 2: opposite first
+        if !on && style == 1 { continue; }
+        let set = |o: &mut GeneratorOptions, v: bool| { match which {
+            0 => { o.length_processing_mode(if v { DataLengthProcessingMode::Conservative } else { DataLengthProcessingMode::Optimistic }); }
+            1 => { o.pure_integer_qratio_computation(v); }
+            2 => { o.allow_small_size_files(v); }
+            3 => { o.allow_statistically_weak_buckets_half(v); }
+            _ => { o.allow_statistically_weak_buckets_quarter(v); }
+        } };
+        if style == 2 { set(&mut o, !on); }
+        set(&mut o, on);
+    }
     o
 }
 
@@ -483,6 +502,7 @@ pub fn stream_hist(out: &mut impl Write, seed: u64, budget: usize) {
                         script.push(format!("s:{}", rng.below(handles as u64)));
                     }
                 }
+                8 if handles >= 2 => script.push(format!("cf:{}", rng.below(handles as u64))),
                 _ => script.push(format!("s:{}", rng.below(handles as u64))),
             }
         }
@@ -521,6 +541,16 @@ pub fn emit_hist(out: &mut impl Write, vi: usize, script: &[String]) {
                     gens.push(g);
                     let s = seen[cur].clone();
                     seen.push(s);
+                    outs.push("-".to_string());
+                } else if let Some(k) = op.strip_prefix("cf:") {
+                    // `Clone::clone_from`: handle k becomes a copy of the current handle, in place
+                    let k: usize = k.parse().unwrap();
+                    if k != cur {
+                        let src = gens[cur].clone();
+                        gens[k].clone_from(&src);
+                        let sb = seen[cur].clone();
+                        seen[k] = sb;
+                    }
                     outs.push("-".to_string());
                 } else if let Some(k) = op.strip_prefix("s:") {
                     cur = k.parse().unwrap();
